@@ -29,6 +29,8 @@ import (
 type detOp struct {
 	name string
 	run  func() string
+	// heavy operations are repeated under two orders only
+	heavy bool
 }
 
 func digest(s string) string {
@@ -49,7 +51,7 @@ func detWorkload(t *sim.Tape) (ops []detOp, desc string) {
 	var fontFiles [][]byte
 	for _, format := range gen.FontFormats {
 		format := format
-		ops = append(ops, detOp{fmt.Sprintf("Font.Write(format %d)", format), func() string {
+		ops = append(ops, detOp{name: fmt.Sprintf("Font.Write(format %d)", format), run: func() string {
 			var buf bytes.Buffer
 			err := f.Write(&buf, &type1.WriterOptions{Format: format})
 			return dump.Err(err) + " " + buf.String()
@@ -59,19 +61,19 @@ func detWorkload(t *sim.Tape) (ops []detOp, desc string) {
 			fontFiles = append(fontFiles, b)
 		}
 	}
-	ops = append(ops, detOp{"Font.WritePDF", func() string {
+	ops = append(ops, detOp{name: "Font.WritePDF", run: func() string {
 		var buf bytes.Buffer
 		a, b, err := f.WritePDF(&buf)
 		return fmt.Sprintf("%s %d %d %s", dump.Err(err), a, b, buf.String())
 	}})
-	ops = append(ops, detOp{"Metrics.Write", func() string {
+	ops = append(ops, detOp{name: "Metrics.Write", run: func() string {
 		var buf bytes.Buffer
 		err := m.Write(&buf)
 		return dump.Err(err) + " " + buf.String()
 	}})
 	for i, file := range fontFiles {
 		file := file
-		ops = append(ops, detOp{fmt.Sprintf("type1.Read(file %d)", i), func() string {
+		ops = append(ops, detOp{name: fmt.Sprintf("type1.Read(file %d)", i), run: func() string {
 			g, err := type1.Read(bytes.NewReader(file))
 			return dump.Err(err) + " " + dump.Font(g)
 		}})
@@ -79,18 +81,18 @@ func detWorkload(t *sim.Tape) (ops []detOp, desc string) {
 	var afmFile bytes.Buffer
 	m.Write(&afmFile)
 	afmBytes := gen.AFMRelayout(t, m) // order-free rendering (sorted ligatures)
-	ops = append(ops, detOp{"afm.Read", func() string {
+	ops = append(ops, detOp{name: "afm.Read", run: func() string {
 		g, err := afm.Read(bytes.NewReader(afmBytes))
 		return dump.Err(err) + " " + dump.Metrics(g)
 	}})
 	seacFile, seacDesc := gen.SeacFont(t)
 	desc += "; " + seacDesc
 	if seacFile != nil {
-		ops = append(ops, detOp{"type1.Read(seac font)", func() string {
+		ops = append(ops, detOp{name: "type1.Read(seac font)", run: func() string {
 			g, err := type1.Read(bytes.NewReader(seacFile))
 			return dump.Err(err) + " " + dump.Font(g)
 		}})
-		ops = append(ops, detOp{"type1.Read(seac font) then Font.Write", func() string {
+		ops = append(ops, detOp{name: "type1.Read(seac font) then Font.Write", run: func() string {
 			g, err := type1.Read(bytes.NewReader(seacFile))
 			if err != nil {
 				return dump.Err(err)
@@ -101,7 +103,7 @@ func detWorkload(t *sim.Tape) (ops []detOp, desc string) {
 		}})
 	}
 	odd := gen.GenCMapMisuse(t)
-	ops = append(ops, detOp{"ReadCMap(misused operators)", func() string {
+	ops = append(ops, detOp{name: "ReadCMap(misused operators)", run: func() string {
 		d, err := postscript.ReadCMap(bytes.NewReader(odd))
 		if d == nil {
 			return dump.Err(err) + " nil"
@@ -110,41 +112,56 @@ func detWorkload(t *sim.Tape) (ops []detOp, desc string) {
 	}})
 	// the same bytes read many times in a row: a result that changes after the
 	// n-th read in a process (state carried from call to call) shows up here
-	ops = append(ops, detOp{"ReadCMap x40 (same bytes)", func() string {
-		var sb strings.Builder
-		for i := 0; i < 40; i++ {
+	// "Reading the same bytes twice produces equal results", literally: K reads
+	// in a row inside one operation; any read that differs from the first one is
+	// reported whatever the other repetitions say.  One run in six uses enough
+	// reads (>= 1.2 million interpreter operations in total) for state that
+	// accumulates from call to call to matter.
+	nReads := 40
+	heavy := t.Choose(6) == 0
+	if heavy {
+		nReads = 700
+	}
+	ops = append(ops, detOp{name: fmt.Sprintf("ReadCMap x%d (same bytes)", nReads), heavy: heavy, run: func() string {
+		first := ""
+		for i := 0; i < nReads; i++ {
 			d, err := postscript.ReadCMap(bytes.NewReader(cmapFile))
 			r := dump.Err(err)
 			if d != nil {
 				r += " " + dump.Object(d)
 			}
 			if i == 0 {
-				sb.WriteString(r)
-			} else {
-				sb.WriteString(" " + digest(r))
+				first = r
+			} else if r != first {
+				return fmt.Sprintf("INCONSISTENT: read #%d of the same bytes differs from read #0: %s", i, firstDiff(r, first))
 			}
 		}
-		return sb.String()
+		return first
 	}})
 	if len(fontFiles) > 0 {
 		ff := fontFiles[0]
-		ops = append(ops, detOp{"type1.Read x12 (same bytes)", func() string {
-			var sb strings.Builder
+		ops = append(ops, detOp{name: "type1.Read x12 (same bytes)", run: func() string {
+			first := ""
 			for i := 0; i < 12; i++ {
 				g, err := type1.Read(bytes.NewReader(ff))
-				sb.WriteString(" " + digest(dump.Err(err)+dump.Font(g)))
+				r := dump.Err(err) + dump.Font(g)
+				if i == 0 {
+					first = r
+				} else if r != first {
+					return fmt.Sprintf("INCONSISTENT: read #%d of the same bytes differs from read #0: %s", i, firstDiff(r, first))
+				}
 			}
-			return sb.String()
+			return digest(first)
 		}})
 	}
-	ops = append(ops, detOp{"ReadCMap(multi)", func() string {
+	ops = append(ops, detOp{name: "ReadCMap(multi)", run: func() string {
 		d, err := postscript.ReadCMap(bytes.NewReader(cmapFile))
 		if d == nil {
 			return dump.Err(err) + " nil"
 		}
 		return dump.Err(err) + " " + dump.Object(d)
 	}})
-	ops = append(ops, detOp{"Execute(program)", func() string {
+	ops = append(ops, detOp{name: "Execute(program)", run: func() string {
 		in := postscript.NewInterpreter()
 		in.MaxOps = psSafetyBudget
 		err := in.Execute(bytes.NewReader(prog.Src))
@@ -160,7 +177,7 @@ func detWorkload(t *sim.Tape) (ops []detOp, desc string) {
 	}
 	dsrc.WriteString(" >> def /d2 20 dict def d1 d2 copy pop d2 { pop pop } forall d2 length d1 length d2 /k1 known currentdict d2 copy length")
 	dprog := dsrc.String()
-	ops = append(ops, detOp{"Execute(dict copy/forall)", func() string {
+	ops = append(ops, detOp{name: "Execute(dict copy/forall)", run: func() string {
 		in := postscript.NewInterpreter()
 		in.MaxOps = psSafetyBudget
 		err := in.Execute(strings.NewReader(dprog))
@@ -169,13 +186,13 @@ func detWorkload(t *sim.Tape) (ops []detOp, desc string) {
 	// a hostile program in its own interpreter: whatever it does must not change
 	// what the other operations return when they are repeated
 	hp := gen.GenPS(t, gen.PSOpts{MaxTokens: 40, Errors: 4, MaxAlloc: 40, Hostile: true, PlainLex: true, Stop: true})
-	ops = append(ops, detOp{"Execute(hostile program)", func() string {
+	ops = append(ops, detOp{name: "Execute(hostile program)", run: func() string {
 		in := postscript.NewInterpreter()
 		in.MaxOps = psSafetyBudget
 		err := in.Execute(bytes.NewReader(hp.Src))
 		return dump.Err(err) + " " + dump.InterpNoDSC(in)
 	}})
-	ops = append(ops, detOp{"Font queries", func() string {
+	ops = append(ops, detOp{name: "Font queries", run: func() string {
 		var sb strings.Builder
 		fmt.Fprintf(&sb, "n=%d list=%q bbox=%v bboxPDF=%v", f.NumGlyphs(), f.GlyphList(), f.FontBBox(), f.FontBBoxPDF())
 		w := f.WidthsMapPDF()
@@ -189,7 +206,7 @@ func detWorkload(t *sim.Tape) (ops []detOp, desc string) {
 		}
 		return sb.String()
 	}})
-	ops = append(ops, detOp{"Metrics queries", func() string {
+	ops = append(ops, detOp{name: "Metrics queries", run: func() string {
 		return fmt.Sprintf("n=%d list=%q bbox=%v", m.NumGlyphs(), m.GlyphList(), m.FontBBoxPDF())
 	}})
 	return ops, desc
@@ -314,11 +331,23 @@ func C17() *sim.Check {
 		ref := make([]string, len(ops))
 		for i, op := range ops {
 			ref[i] = safeOp(op)
+			if strings.HasPrefix(ref[i], "INCONSISTENT:") {
+				simrt.SetOrder(simrt.OrderNative, nil)
+				simrt.SetClock(false, time.Time{}, nil)
+				out := &sim.Outcome{Class: "repeat-dependent", Key: "determ:" + op.name, Detail: op.name + ": " + ref[i][len("INCONSISTENT: "):]}
+				if c.Explain {
+					out.Human = map[string]any{"values": desc, "operation": op.name}
+				}
+				return out
+			}
 		}
 		orders := []orderSpec{{"reverse", simrt.OrderReverse}, {"rotate", simrt.OrderRotate}, {"random", simrt.OrderRandom}, {"random", simrt.OrderRandom},
 			{"adjacent-swap", simrt.OrderSwap}, {"adjacent-swap", simrt.OrderSwap}, {"native", simrt.OrderNative}, {"native", simrt.OrderNative}}
-		for _, o := range orders {
+		for oi, o := range orders {
 			for i, op := range ops {
+				if op.heavy && oi > 0 {
+					continue
+				}
 				churn(t)
 				recBefore := len(t.Rec)
 				_, _, before := simrt.OrderStats()
